@@ -8,16 +8,22 @@
     emoji=False always; emoji=True in addition when s has fewer than two ':'.
 (b) tag semantics: every event sequence up to a length bound over
     {text "x", text escape("[y]"), open t, close t, "[/]"} with t in
-    {bold, b, red, blue, not bold, link=U}. The generator keeps the open-tag
-    stack itself; expected plain text, expected per-character style (RefStyle
+    {bold, b, red, blue, not bold, link=U} plus a second link target (open
+    link=V: same tag name, different effect, so that WHICH of two same-named
+    tags a close removed is visible). The generator keeps the open-tag stack
+    itself; expected plain text, expected per-character style (RefStyle
     combination of the open tags in opening order) and whether MarkupError is
     due all come from that model. The effective style of each character is read
     back by Text.render(console) -> Segments -> RefStyle.
 
-Measured on this machine (16 workers):
-  quick     (a) len<=5: 271 453 strings, (b) len<=5: 813 616 sequences  ~25 s
-  thorough  (a) len<=7 (length 7: embeddings with emoji=False only),
-            (b) len<=6 on the 15-event alphabet + len 7 on two 9-event alphabets  ~15 min
+Measured (machine shared with ~100 other busy processes, so CPU seconds are the
+reliable number; wall on 16 free cores is about CPU/16):
+  quick     (a) len<=5: 271 453 strings, (b) len<=5 over 16 events: 1 118 481 sequences;
+            2 995 889 evaluations, 92 outcome signatures (61 non-trivial), ~235 CPU-s (~15-20 s wall on 16 cores)
+  thorough  (a) len<=6 over 12 symbols + len 7 over 11 symbols ('b' dropped: same regex class as 'a';
+            embeddings with emoji=False only): 22 744 608 strings,
+            (b) len<=6 over 16 events + len 7 over a 9-event and a 10-event sub-alphabet: 32 678 666 sequences;
+            134 570 660 evaluations, 146 signatures (115 non-trivial), ~9 000 CPU-s (~10 min wall on 16 free cores)
 """
 import io
 import itertools
@@ -39,8 +45,8 @@ LEVEL_TEXT = ("Every string over the 12-symbol markup alphabet up to the length 
               "per-character effective style (read back through Text.render) and MarkupError are compared with a "
               "reference that tracks the open-tag stack itself. Exhaustive inside the stated bounds; nothing is sampled.")
 LEVEL_NOTE = ("Trusted: CPython, vf/refstyle.py, the ~120-line reference in vf/checks/c04.py, Console.get_style/Style.parse "
-              "for the six fixed tag names (C06/C20 decide those). Bounds: strings <=5 (quick) / <=7 (thorough) over 12 "
-              "symbols; tag-event sequences <=5 (quick) / <=6 + two 9-event sub-alphabets at length 7 (thorough).")
+              "for the seven fixed tag spellings (C06/C20 decide those). Bounds: strings <=5 (quick) / <=6 over 12 symbols + 7 over "
+              "11 symbols (thorough); tag-event sequences over 16 events <=5 (quick) / <=6 + two sub-alphabets at length 7 (thorough).")
 
 # ------------------------------------------------------------------ shared
 _CONSOLE = [None]
@@ -459,7 +465,7 @@ def describe(tier, seed, res):
                    "" if q else ", plus every sequence of exactly 7 events over the sub-alphabets "
                                 "{x,+bold,[/],+red,-bold,-red,+b,+blue,-blue} and {x,\\[y],[/],+not bold,+bold,+link=U,+link=V,-not bold,-b,-link}"),
         "assumptions": [
-            "Console.get_style resolves the six fixed tag names bold, b, red, blue, 'not bold', 'link U' to their documented styles (decided by C06/C20)",
+            "Console.get_style resolves the fixed tag spellings bold, b, red, blue, 'not bold', 'link U', 'link V' to their documented styles (decided by C06/C20)",
             "the embedded clause is only judged for contexts that do not end in a backslash (such a context is not 'complete markup')",
             "emoji substitution is a separate feature: emoji=True is only judged where fewer than two ':' make it a no-op",
             "exact (tri-state) style equality per character: 'not bold' must read back as bold=False, not as unset",
